@@ -10,6 +10,8 @@ CONSTANTS
   H = 100
   MaxNow = 5
   MaxNet = 2
+  MaxRxq = 2
+  MaxGwResend = 1
   DupBudget = 0
   LossBudget = 1
   InjBudget = 0
